@@ -23,6 +23,9 @@ func propC02(r *Report, tier string) {
 	ruleNilActualBitmapIsNotEmpty(r, "K6-nil-actual-bitmap-is-not-empty")
 	rulePooledLocationsDeepCopied(r, "K6-pooled-locations-deep-copied")
 	ruleHeapRestoredBeforePeek(r, "K5-heap-restored-before-peek")
+	ruleOptimisedDisjunctionKeepsMin(r, "K12-optimised-disjunction-keeps-min")
+	ruleSearcherCountIsAnEstimate(r, "K7-searcher-count-is-an-estimate")
+	ruleFieldwiseEqualityComplete(r, "K9b-fieldwise-equality-complete", []string{"search", "search/searcher", "search/highlight", "search/collector", "index/scorch", "index/upsidedown", "document"}, map[string]string{})
 	r.Floor("K8-exclusion-at-read-sites", 6)
 	r.Floor("K5-per-segment-state-reset", 3)
 	r.Floor("K6-shared-bitmaps-immutable", 2)
